@@ -130,6 +130,10 @@ type c16ExtOp struct {
 }
 
 func (w *c16World) applyExt(op c16ExtOp) {
+	if op.Op == "create" {
+		w.srv.Seed(runtime.DeepCopyJSON(op.Data))
+		return
+	}
 	cur := w.srv.GetLive(op.APIVersion, op.Kind, op.Namespace, op.Name)
 	md := func(o c16J) c16J {
 		m, _ := o["metadata"].(map[string]interface{})
@@ -138,10 +142,6 @@ func (w *c16World) applyExt(op c16ExtOp) {
 			o["metadata"] = m
 		}
 		return m
-	}
-	if op.Op == "create" {
-		w.srv.Seed(runtime.DeepCopyJSON(op.Data))
-		return
 	}
 	if cur == nil {
 		return
@@ -635,6 +635,9 @@ func TestVerif_C16(t *testing.T) {
 			t.Fatalf("scenario %d (%s): %v", i, sc.Family, err)
 		}
 		id := fmt.Sprintf("s%d", i)
+		if c16WritesExplicitNullStatus(rec) {
+			sc.Features = append(sc.Features, "writes-explicit-null-status")
+		}
 		replay := c16J{"scenario": replayCopy, "features": sc.Features, "results": c16RoundResults(rec), "trace": c16TraceSummary(rec)}
 		if err := w.Add(id, c16CoqCase(rec), "C16_check", replay); err != nil {
 			t.Fatal(err)
@@ -675,6 +678,26 @@ func TestVerif_C16(t *testing.T) {
 	if err := w.Close(nil); err != nil {
 		t.Fatal(err)
 	}
+}
+
+// an accepted write to a target that had no status key leaves an explicit "status": null behind
+func c16WritesExplicitNullStatus(c *c16CaseRec) bool {
+	for _, r := range c.Rounds {
+		for _, e := range r.Events {
+			if e.API == nil || e.API.Code >= 300 || (e.API.Verb != "update" && e.API.Verb != "updatestatus") {
+				continue
+			}
+			if e.API.Kind != "Pod" && e.API.Kind != "ClusterWidget" {
+				continue
+			}
+			_, had := e.API.Pre["status"]
+			v, has := e.API.Post["status"]
+			if !had && has && v == nil {
+				return true
+			}
+		}
+	}
+	return false
 }
 
 func c16CloneScenario(sc *c16Scenario) *c16Scenario {
